@@ -278,11 +278,19 @@ fn patch_bias(rng: &mut Rng, p: &mut [u8], n: u16) -> Hostile {
     } else {
         crate::oracle::sig::SSR_GLO.iter().map(|x| x.0).collect()
     };
-    for _ in 0..nsat {
+    // satellite ids of the blocks: independent, all the same (one satellite collecting hundreds
+    // of entries over many blocks), or alternating between two
+    let policy = rng.below(4);
+    let fixed = [rng.below(1 << idw), rng.below(1 << idw)];
+    for bi in 0..nsat {
         if pos + idw + 5 > total_bits {
             break;
         }
-        let id = rng.below(1 << idw);
+        let id = match policy {
+            0 => fixed[0],
+            1 => fixed[bi % 2],
+            _ => rng.below(1 << idw),
+        };
         bits::write(p, pos, idw, id as u128);
         pos += idw;
         let nb = if overflow { 31 } else { rng.below(32) as usize };
